@@ -44,7 +44,7 @@ ASSUMPTIONS = [
 ]
 REAL_STUB = {"real": ["onnx_ir._cloner", "Model/Graph/Function/GraphView.clone", "passes.functionalize and the wrapped passes", "serde.to_proto"], "stub": [], "harness_extension_points": []}
 
-CLONE_KINDS = ["model", "model_deep", "graph", "graph_deep", "function", "function_deep", "view", "view_deep", "view_partial", "view_partial_deep", "functionalize", "subgraph_outer_allowed", "subgraph_outer_forbidden"]
+CLONE_KINDS = ["model", "model_deep", "graph", "graph_deep", "function", "function_deep", "view", "view_deep", "view_partial", "view_partial_deep", "functionalize", "subgraph_outer_allowed", "subgraph_outer_forbidden", "subgraph_outer_allowed_refused"]
 PASSES = ["RemoveUnusedNodesPass", "IdentityEliminationPass", "NameFixPass", "TopologicalSortPass", "CommonSubexpressionEliminationPass", "DeduplicateInitializersPass", "LiftConstantsToInitializersPass", "InlinePass", "ClearMetadataAndDocStringPass", "OutputFixPass"]
 def _composition(run_seed: int):
     cr = Streams(run_seed).rng("functionalize-composition")
@@ -294,6 +294,28 @@ def run_case(case: dict) -> dict:
                 return res
             original_obj = sg
             closed = False
+            if kind == "subgraph_outer_allowed_refused":
+                # the subgraph additionally lists an output that nothing defines: cloning it is refused (the value belongs to
+                # the original subgraph) - after the cloner has already copied nodes that read outer values
+                sg.outputs.append(ir.Value(name="not_defined_anywhere"))
+                w0.close()
+                snap_b = snapshot.snapshot(w0, tensors=False)
+                try:
+                    sg.clone(allow_outer_scope_values=True)
+                except Exception as e:  # noqa: BLE001
+                    inc("outer_allowed_clone_refused")
+                    trace.append(("clone", "rejected", type(e).__name__))
+                else:
+                    inc("outer_allowed_clone_with_undefined_output_accepted")
+                    res["event_digest"] = digest(trace)
+                    return res
+                snap_a = snapshot.snapshot(w0, tensors=False)
+                if snap_a != snap_b:
+                    d = snapshot.diff(snap_b, snap_a)
+                    viol("clone-changed-the-original", f"{kind}: the refused clone changed the original: {str(d[:2])[:400]}", key=f"clone-changed-the-original|{kind}")
+                res["event_digest"] = digest(trace)
+                res["distinct"] = [digest((case["model_seed"], kind))]
+                return res
             if kind == "subgraph_outer_allowed":
                 clone_obj = sg.clone(allow_outer_scope_values=True)
                 allowed_shared = {id(v) for v in outer}
